@@ -2,4 +2,4 @@
    stay the extracted inductives. Run by lib/vcheck.py inside build/ocaml/C11. *)
 From Coq Require Import Extraction ExtrOcamlBasic.
 Require Import MW.KV.Model.
-Extraction "model.ml" step step_unrepaired step_seek_unrepaired init_state.
+Extraction "model.ml" step step_unrepaired step_seek_unrepaired step_iter_unmerged init_state.
